@@ -22,9 +22,12 @@ type Mutex struct {
 	tag  byte // address anchor for race annotations
 }
 
+//go:norace
 func (m *Mutex) free() bool { return !m.held }
 
 // Lock acquires the mutex (scheduling point; model-blocking).
+//
+//go:norace
 func (m *Mutex) Lock() {
 	vsched.Block(vsched.KLock, m, m.free)
 	if m.held && vsched.On() {
@@ -35,6 +38,8 @@ func (m *Mutex) Lock() {
 }
 
 // TryLock mirrors sync.Mutex.TryLock.
+//
+//go:norace
 func (m *Mutex) TryLock() bool {
 	vsched.Point(vsched.KLock, m, nil)
 	if m.held {
@@ -46,6 +51,8 @@ func (m *Mutex) TryLock() bool {
 }
 
 // Unlock releases the mutex (not a scheduling point: releases are left-movers).
+//
+//go:norace
 func (m *Mutex) Unlock() {
 	if !m.held {
 		if vsched.Aborting() {
@@ -57,8 +64,10 @@ func (m *Mutex) Unlock() {
 	m.held = false
 }
 
+//go:norace
 func (m *Mutex) String() string { return "Mutex" }
 
+//go:norace
 func fatal(msg string) {
 	if vsched.On() {
 		vsched.Failf("fatal error: %s", msg)
@@ -75,16 +84,27 @@ type RWMutex struct {
 	rtag     byte
 }
 
+//go:norace
 func (rw *RWMutex) String() string { return "RWMutex" }
 
+//go:norace
+func (rw *RWMutex) noWriter() bool { return !rw.wpending && !rw.wactive }
+
+//go:norace
+func (rw *RWMutex) noReaders() bool { return rw.readers == 0 }
+
 // RLock acquires a read lock.
+//
+//go:norace
 func (rw *RWMutex) RLock() {
-	vsched.Block(vsched.KRLock, rw, func() bool { return !rw.wpending && !rw.wactive })
+	vsched.Block(vsched.KRLock, rw, rw.noWriter)
 	rw.readers++
 	raceAcquire(unsafe.Pointer(&rw.tag))
 }
 
 // RUnlock releases a read lock.
+//
+//go:norace
 func (rw *RWMutex) RUnlock() {
 	if rw.readers <= 0 {
 		if vsched.Aborting() {
@@ -97,11 +117,13 @@ func (rw *RWMutex) RUnlock() {
 }
 
 // Lock acquires the write lock.
+//
+//go:norace
 func (rw *RWMutex) Lock() {
-	vsched.Block(vsched.KLock, rw, func() bool { return !rw.wpending && !rw.wactive })
+	vsched.Block(vsched.KLock, rw, rw.noWriter)
 	rw.wpending = true
 	if rw.readers > 0 {
-		vsched.Block(vsched.KWLockWait, rw, func() bool { return rw.readers == 0 })
+		vsched.Block(vsched.KWLockWait, rw, rw.noReaders)
 	}
 	rw.wpending = false
 	rw.wactive = true
@@ -110,6 +132,8 @@ func (rw *RWMutex) Lock() {
 }
 
 // Unlock releases the write lock.
+//
+//go:norace
 func (rw *RWMutex) Unlock() {
 	if !rw.wactive {
 		if vsched.Aborting() {
@@ -122,11 +146,16 @@ func (rw *RWMutex) Unlock() {
 }
 
 // RLocker mirrors sync.RWMutex.RLocker.
+//
+//go:norace
 func (rw *RWMutex) RLocker() Locker { return (*rlocker)(rw) }
 
 type rlocker RWMutex
 
-func (r *rlocker) Lock()   { (*RWMutex)(r).RLock() }
+//go:norace
+func (r *rlocker) Lock() { (*RWMutex)(r).RLock() }
+
+//go:norace
 func (r *rlocker) Unlock() { (*RWMutex)(r).RUnlock() }
 
 // WaitGroup mirrors sync.WaitGroup.
@@ -136,9 +165,15 @@ type WaitGroup struct {
 	tag     byte
 }
 
+//go:norace
 func (wg *WaitGroup) String() string { return "WaitGroup" }
 
+//go:norace
+func (wg *WaitGroup) zero() bool { return wg.n == 0 }
+
 // Add adds delta. Positive deltas are scheduling points; Done is a left-mover.
+//
+//go:norace
 func (wg *WaitGroup) Add(delta int) {
 	if delta > 0 {
 		vsched.Point(vsched.KWgAdd, wg, nil)
@@ -157,11 +192,15 @@ func (wg *WaitGroup) Add(delta int) {
 }
 
 // Done decrements the counter.
+//
+//go:norace
 func (wg *WaitGroup) Done() { wg.Add(-1) }
 
 // Wait blocks until the counter is zero.
+//
+//go:norace
 func (wg *WaitGroup) Wait() {
-	vsched.Block(vsched.KWgWait, wg, func() bool { return wg.n == 0 })
+	vsched.Block(vsched.KWgWait, wg, wg.zero)
 	raceAcquire(unsafe.Pointer(&wg.tag))
 }
 
@@ -171,18 +210,26 @@ type Once struct {
 	tag   byte
 }
 
+//go:norace
+func (o *Once) notRunning() bool { return o.state != 1 }
+
+//go:norace
+func (o *Once) finish() {
+	raceRelease(unsafe.Pointer(&o.tag))
+	o.state = 2
+}
+
 // Do mirrors sync.Once.Do.
+//
+//go:norace
 func (o *Once) Do(f func()) {
-	vsched.Block(vsched.KOnce, o, func() bool { return o.state != 1 })
+	vsched.Block(vsched.KOnce, o, o.notRunning)
 	if o.state == 2 {
 		raceAcquire(unsafe.Pointer(&o.tag))
 		return
 	}
 	o.state = 1
-	defer func() {
-		raceRelease(unsafe.Pointer(&o.tag))
-		o.state = 2
-	}()
+	defer o.finish()
 	f()
 }
 
@@ -196,6 +243,8 @@ type Pool struct {
 }
 
 // fresh drops items that belong to an earlier execution (lazy per-execution reset).
+//
+//go:norace
 func (p *Pool) fresh() {
 	if x := vsched.X(); p.epoch != x {
 		p.epoch = x
@@ -207,6 +256,8 @@ func (p *Pool) fresh() {
 }
 
 // Get mirrors sync.Pool.Get.
+//
+//go:norace
 func (p *Pool) Get() interface{} {
 	vsched.Point(vsched.KPool, p, nil)
 	p.fresh()
@@ -224,6 +275,8 @@ func (p *Pool) Get() interface{} {
 }
 
 // Put mirrors sync.Pool.Put.
+//
+//go:norace
 func (p *Pool) Put(x interface{}) {
 	if x == nil {
 		return
@@ -241,6 +294,7 @@ func (p *Pool) Put(x interface{}) {
 
 var poolRaceHash [128]uint64
 
+//go:norace
 func poolRaceAddr(x interface{}) unsafe.Pointer {
 	ptr := uintptr((*[2]unsafe.Pointer)(unsafe.Pointer(&x))[1])
 	h := uint32((uint64(uint32(ptr)) * 0x85ebca6b) >> 16)
@@ -248,9 +302,13 @@ func poolRaceAddr(x interface{}) unsafe.Pointer {
 }
 
 // Len reports the number of pooled items (harness use).
+//
+//go:norace
 func (p *Pool) Len() int { return len(p.items) }
 
 // Go runs fn as a new managed thread (replacement of the go statement).
+//
+//go:norace
 func Go(fn func()) {
 	if vsched.Aborting() {
 		return
@@ -262,6 +320,7 @@ func Go(fn func()) {
 	vsched.Spawn("go", fn)
 }
 
+//go:norace
 func chanPtr(ch interface{}) (reflect.Value, uintptr) {
 	v := reflect.ValueOf(ch)
 	if v.Kind() != reflect.Chan {
@@ -271,6 +330,8 @@ func chanPtr(ch interface{}) (reflect.Value, uintptr) {
 }
 
 // AwaitRecv blocks in the model until a receive on ch would not block.
+//
+//go:norace
 func AwaitRecv(ch interface{}) {
 	v, p := chanPtr(ch)
 	if v.IsNil() {
@@ -283,6 +344,8 @@ func AwaitRecv(ch interface{}) {
 }
 
 // AwaitSend blocks in the model until a send on ch would not block.
+//
+//go:norace
 func AwaitSend(ch interface{}) {
 	v, p := chanPtr(ch)
 	if v.IsNil() {
@@ -301,18 +364,24 @@ func AwaitSend(ch interface{}) {
 }
 
 // BeforeClose is the scheduling point before close(ch).
+//
+//go:norace
 func BeforeClose(ch interface{}) {
 	_, p := chanPtr(ch)
 	vsched.Point(vsched.KChanClose, p, nil)
 }
 
 // ChanKey returns the identity under which operations on ch are recorded.
+//
+//go:norace
 func ChanKey(ch interface{}) uintptr {
 	_, p := chanPtr(ch)
 	return p
 }
 
 // Closed records that ch has been closed so that receivers wake up.
+//
+//go:norace
 func Closed(ch interface{}) {
 	if x := vsched.X(); x != nil {
 		_, p := chanPtr(ch)
@@ -321,6 +390,8 @@ func Closed(ch interface{}) {
 }
 
 // CloseNote must be used by harness code that closes channels itself.
+//
+//go:norace
 func CloseNote(ch interface{}) { Closed(ch) }
 
 // PreClosed registers a channel that was closed before any run (e.g. a package-level closed channel).
@@ -332,12 +403,15 @@ type Map struct {
 	m  map[interface{}]interface{}
 }
 
+//go:norace
 func (m *Map) Load(k interface{}) (interface{}, bool) {
 	m.mu.Lock()
 	defer m.mu.Unlock()
 	v, ok := m.m[k]
 	return v, ok
 }
+
+//go:norace
 func (m *Map) Store(k, v interface{}) {
 	m.mu.Lock()
 	defer m.mu.Unlock()
@@ -346,6 +420,8 @@ func (m *Map) Store(k, v interface{}) {
 	}
 	m.m[k] = v
 }
+
+//go:norace
 func (m *Map) Delete(k interface{}) {
 	m.mu.Lock()
 	defer m.mu.Unlock()
@@ -353,6 +429,8 @@ func (m *Map) Delete(k interface{}) {
 }
 
 // SelectPoint is the scheduling point before a non-blocking select (a poll of channel state).
+//
+//go:norace
 func SelectPoint(chans ...interface{}) {
 	var m vsched.Multi
 	for _, c := range chans {
@@ -369,4 +447,6 @@ func SelectPoint(chans ...interface{}) {
 }
 
 // Yield is an explicit scheduling point (used for injected yields).
+//
+//go:norace
 func Yield() { vsched.Yield() }
